@@ -263,8 +263,106 @@ def frontManyLine (srcs : List (Option IDL × String)) : Sx :=
   let (failed, outs) := go srcs none []
   tagged "frontmany" (.atom (failed.getD "ok") :: outs)
 
+/-! sessions -/
+
+def parseStep : Sx → Option SStep
+  | .list [.atom "g", i, m, .atom mode, args, .list (.atom "script" :: script)] => do
+    let i ← Sx.asNat i
+    let m ← Sx.asStr m
+    let args ← parseVal args
+    let script ← script.mapM parseAction
+    pure (.gen i m mode args script)
+  | .list [.atom "r", j] => (Sx.toJson j).map .raw
+  | _ => none
+
+/-- a raw request to a service with several generated interfaces (the recorders' fallback replies
+    `MethodNotImplemented`) -/
+def rawModelMulti (idls : List IDL) (req : Json) : RawObs :=
+  match req.get? "method" with
+  | some (.str full) =>
+    (match lastDot full with
+     | none => rawModel (idls.headD default) req
+     | some (iface, _) =>
+       match idls.find? (·.name == iface) with
+       | some i => rawModel i req
+       | none => rawModel { (idls.headD default) with name := "\u0000no-such-interface" } req)
+  | _ => rawModel (idls.headD default) req
+
+structure SessAcc where
+  req : List Json := []
+  seen : List Sx := []
+  wire : List Json := []
+  client : List Sx := []
+  srvOk : Bool := true
+  busy : Bool := false
+  closed : Bool := false
+
+def sessStep (idls : List IDL) (a : SessAcc) (s : SStep) : SessAcc :=
+  match s with
+  | .gen i mn mode args script =>
+    if a.busy then { a with client := a.client ++ [tagged "g" [clientSx (.verr "busy")]] }
+    else
+    match idls[i]? with
+    | none => { a with client := a.client ++ [.atom "no-such-interface"] }
+    | some idl =>
+      match idl.methods.find? (·.name == mn) with
+      | none => { a with client := a.client ++ [.atom "no-such-method"] }
+      | some m =>
+        let ab := abandonCount mode
+        let md : Mode := if mode == "oneway" then .oneway else if mode == "more" || ab.isSome then .more else .call
+        let o := predictCall idl m md args script
+        let outs := match ab with
+          | some n => o.client.take n
+          | none => o.client
+        let busy' := match ab with
+          | some n => decide (n < o.client.length) && o.seen != []
+          | none => false
+        { a with req := a.req ++ o.req, seen := a.seen ++ o.seen.map Sx.ofBool, wire := a.wire ++ o.wire,
+                 client := a.client ++ [tagged "g" (outs.map clientSx)], srvOk := a.srvOk && o.srvOk, busy := busy',
+                 closed := a.closed || !o.srvOk }
+  | .raw req =>
+    if a.busy then { a with client := a.client ++ [tagged "r" [.atom "busy"]] }
+    else
+      let o := rawModelMulti idls req
+      { a with req := a.req ++ [req], seen := a.seen ++ o.seen.map (fun (m, j) => Sx.list [Sx.strAtom m, jx j]),
+               wire := a.wire ++ o.wire,
+               client := a.client ++ [tagged "r" (match o.wire with
+                 | [] => [.atom "closed"]
+                 | w => w.map jx)],
+               srvOk := a.srvOk && o.srvOk, closed := a.closed || !o.srvOk }
+
+def sessionLine (idls : List IDL) (steps : List SStep) : Sx :=
+  if idls.any (fun i => verdict i != .ok) then tagged "session" [.atom "nobuild"] else
+  let a := steps.foldl (sessStep idls) {}
+  tagged "session" [tagged "call" [
+    tagged "req" (a.req.map jx), tagged "seen" a.seen, tagged "wire" (a.wire.map jx), tagged "client" a.client,
+    tagged "srv" [.atom (if a.srvOk then "ok" else "err")]]]
+
+def parseSession (c : Sx) : Option (List IDL × List SStep) :=
+  match c with
+  | .list [.atom "session", .list (.atom "ifaces" :: srcs), .list (.atom "steps" :: steps)] => do
+    let ps ← srcs.mapM parseSrc
+    let idls ← ps.mapM (·.1)
+    let steps ← steps.mapM parseStep
+    pure (idls, steps)
+  | _ => none
+
+def parseSObs : Sx → Option SObs
+  | .list (.atom "g" :: outs) => (outs.mapM parseClientObsFwd).map .g
+  | .list [.atom "r", .atom t] => some (.r none t)
+  | .list [.atom "r", j] => (Sx.toJson j).map fun j => .r (some j) ""
+  | _ => none
+where
+  parseClientObsFwd : Sx → Option ClientObs
+    | .list [.atom "ok", eq, j] => (Sx.toJson j).map fun j => .ok (eq matches .atom "t") j
+    | .list [.atom "err", e, eq] => (Sx.asStr e).map fun e => .err e (eq matches .atom "t")
+    | .list [.atom "verr", .atom k] => some (.verr k)
+    | .atom "ok-oneway" => some .okOneway
+    | _ => none
+
 def modelLine (c : Sx) : Option Sx :=
   match c with
+  | .list (.atom "session" :: _) => (parseSession c).map fun (idls, steps) => sessionLine idls steps
   | .list [.atom "helper-batch"] => some (tagged "helper-batch" [.atom "ok"])
   | .list [.atom "regen", .atom which, _, src2] =>
     -- generating again replaces the earlier output: only the second text counts
@@ -390,6 +488,20 @@ def predC08 (c o : Sx) : String :=
          | some obs => verdictOf (P_C08_raw i req obs)
          | none => "fail unexpected-raw-observation")
     | _, _ => "fail unparsable-case"
+  | .list (.atom "session" :: _) =>
+    (match parseSession c, o with
+     | some _, .list [.atom "session", .atom "nobuild"] => "ok"
+     | some (idls, steps), .list [.atom "session", .list [.atom "call", _, .list (.atom "seen" :: seen), _,
+                                  .list (.atom "client" :: client), _]] =>
+       (match client.mapM parseSObs with
+        | some obs =>
+          let flags := seen.filterMap fun x => match x with
+            | .atom "t" => some true
+            | .atom "f" => some false
+            | _ => none
+          verdictOf (P_C08_session idls steps obs flags)
+        | none => "fail unexpected-session-observation")
+     | _, _ => "fail unexpected-session-observation")
   | .list (.atom "compile" :: _) => "ok"
   | .list (.atom "front" :: _) => "ok"
   | .list (.atom "frontmany" :: _) => "ok"
@@ -490,6 +602,7 @@ def predC09 (c o : Sx) : String :=
   | .list (.atom "probe" :: _) => "ok"
   | .list (.atom "call" :: _) => "ok"
   | .list (.atom "raw" :: _) => "ok"
+  | .list (.atom "session" :: _) => "ok"
   | _ => "fail unparsable-case"
 
 end GenDrv
